@@ -14,7 +14,9 @@ import sys; sys.path.insert(0, "tools")
 import check
 check.ensure_makefile()
 PY
-( cd coq && timeout 3000 make -j16 ) > work/setup_coq.log 2>&1 || { tail -40 work/setup_coq.log; echo "setup: coq build failed" >&2; exit 1; }
+# (targets = the claimed properties; the rest of the tree is work in progress and not claimed)
+TARGETS=$(for f in tools/props/C*.json; do p=$(basename $f .json); echo Properties/$p.vo Run/$p.vo; done)
+( cd coq && timeout 3000 make -j16 $TARGETS ) > work/setup_coq.log 2>&1 || { tail -40 work/setup_coq.log; echo "setup: coq build failed" >&2; exit 1; }
 # 3. warm the Go build cache: build every runner once against /repo
 python3 - <<'PY'
 import os, sys, shutil; sys.path.insert(0, "tools")
